@@ -42,8 +42,14 @@ class P(typing.Protocol):
     def pm(self): ...
 
 
-CLASSES = {"K0": K0, "K1": K1, "K2": K2, "K3": K3, "K4": K4, "A": A, "P": P, "int": int, "str": str, "O": object}
-PLAIN = ["K0", "K1", "K2", "K3", "K4", "A", "P", "int", "str", "O"]
+@typing.runtime_checkable
+class P2(typing.Protocol):
+    # a structural twin of P: two distinct classes that are subclasses of each other
+    def pm(self): ...
+
+
+CLASSES = {"K0": K0, "K1": K1, "K2": K2, "K3": K3, "K4": K4, "A": A, "P": P, "P2": P2, "int": int, "str": str, "O": object}
+PLAIN = ["K0", "K1", "K2", "K3", "K4", "A", "P", "P2", "int", "str", "O"]
 # closed world of concrete classes used for denotations (C13)
 WORLD = ["K0", "K1", "K2", "K3", "K4", "int", "str", "bool", "O"]
 WORLD_CLASSES = {"K0": K0, "K1": K1, "K2": K2, "K3": K3, "K4": K4, "int": int, "str": str, "bool": bool, "O": object}
